@@ -442,8 +442,11 @@ func (s *programState) sendAllToAccount(accountLiteral parser.ValueExpr, ovedraf
 
 	balance := s.getCachedBalance(*account, s.CurrentAsset)
 
-	// we sent balance+overdraft
+	// we sent balance+overdraft (nothing, when that is negative)
 	sentAmt := new(big.Int).Add(balance, ovedraft)
+	if sentAmt.Sign() == -1 {
+		sentAmt.SetInt64(0)
+	}
 	s.pushSender(*account, sentAmt)
 	return sentAmt, nil
 }
@@ -531,6 +534,9 @@ func (s *programState) trySendingToAccount(accountLiteral parser.ValueExpr, amou
 
 		// that's the amount we are allowed to send (balance + overdraft)
 		safeSendAmt := new(big.Int).Add(balance, overdraft)
+		if safeSendAmt.Sign() == -1 {
+			safeSendAmt.SetInt64(0)
+		}
 		actuallySentAmt = utils.MinBigInt(safeSendAmt, amount)
 	}
 
